@@ -222,4 +222,195 @@ def sukfStepLikelihood (inv : InvFn α) (bs : Nat) (R : SNoise α msz bs) (inp :
 
 end step
 
+/-! ### The correction *objects* over call histories
+
+What survives between calls on one `SUKFCorrection`: the skip flag of the `GaussianCorrection` base, and the members
+`innovations_` / `propagated_sigma_points_` the likelihood query reads.  `correctStep` empties `innovations_` when it
+starts (fix 9d4c3da) and fills both members only when the step succeeds; a skipped `correct()` does not enter
+`correctStep` at all (members untouched); the move constructor carries the skip flag, the measurement model and the
+configuration over but *not* the two members (the new object has no likelihood).  `getLikelihood()` asks the measurement
+model for its noise covariance *at query time*.  (After a failed `innovation()` the member
+`propagated_sigma_points_` already holds the new, unshifted points; with `innovations_` empty it cannot be observed
+before the next successful step overwrites it, so the model does not carry it.) -/
+
+section object
+variable {α : Type} [Add α] [Sub α] [Mul α] [Div α] [Neg α] [Zero α] [One α] [Inhabited α] [DecidableEq α] [Transc α]
+variable {bs : Nat}
+
+/-- what `propagated_sigma_points_` (shifted, weighted: `Y`) and `innovations_` (`ν`) hold after a successful step on a
+    measurement of size `msz` (a multiple of the block size) with `k` components -/
+structure SukfStored (α : Type) (bs : Nat) where
+  msz : Nat
+  s : Nat
+  k : Nat
+  hdiv : msz % bs = 0
+  Y : Fin k → Mat α ((msz / bs) * bs) s
+  ν : Fin k → Vec α ((msz / bs) * bs)
+
+/-- the members of a `SUKFCorrection` that survive between calls -/
+structure SukfObj (α : Type) (bs : Nat) where
+  skip : Bool
+  stored : Option (SukfStored α bs)
+
+/-- the noise covariance the measurement model reports, seen by a measurement of size `msz` -/
+abbrev NoiseFn (α : Type) (bs : Nat) := (msz : Nat) → SNoise α msz bs
+
+/-- one `correct(pred_state, corr_state)` call: the sizes in force and what the collaborators answer -/
+structure SukfCall (α : Type) where
+  n : Nat
+  msz : Nat
+  s : Nat
+  k : Nat
+  inp : SukfIn α n msz s k
+  b : GM α n k
+  out : GM α n k
+
+/-- the constructor: nothing skipped, no likelihood -/
+def sukfNew : SukfObj α bs := { skip := false, stored := none }
+
+/-- the move constructor: skip flag kept (fix 88cf1f5), members `innovations_` / `propagated_sigma_points_` not moved -/
+def sukfMoved (o : SukfObj α bs) : SukfObj α bs := { skip := o.skip, stored := none }
+
+/-- what a non-skipped `correct()` leaves in the members: nothing after every early return, `Y` and `ν` of every
+    component after a success (they do not depend on the noise covariance) -/
+def sukfStoredOf (bs : Nat) (c : SukfCall α) (hdiv : c.msz % bs = 0) : SukfStored α bs :=
+  have h : (c.msz / bs) * bs = c.msz := Nat.div_mul_cancel (Nat.dvd_of_mod_eq_zero hdiv)
+  { msz := c.msz, s := c.s, k := c.k, hdiv := hdiv
+    Y := fun i =>
+      let Yp := castRows h (c.inp.Yp i)
+      let predMean := Yp.mulVec c.inp.wm
+      Mat.eval (sukfScaleCols (subCols Yp predMean) (sqrtW c.inp.wc))
+    ν := fun i =>
+      let Yp := castRows h (c.inp.Yp i)
+      Vec.eval (Vec.sub (castVec h c.inp.y) (Yp.mulVec c.inp.wm)) }
+
+def sukfStepStored (bs : Nat) (c : SukfCall α) : Option (SukfStored α bs) :=
+  if h1 : c.inp.validMeas = true ∧ c.msz % bs = 0 then
+    if !c.inp.validPred then none
+    else if !c.inp.validInnov then none
+    else some (sukfStoredOf bs c h1.2)
+  else none
+
+/-- `getLikelihood()` on stored members, with the noise covariance reported at query time -/
+def sukfStoredLik (inv : InvFn α) (st : SukfStored α bs) (R : SNoise α st.msz bs) : Vec α st.k :=
+  have h : (st.msz / bs) * bs = st.msz := Nat.div_mul_cancel (Nat.dvd_of_mod_eq_zero st.hdiv)
+  Vec.of (fun i => sukfLik inv (R.cast h) (st.Y i) (st.ν i))
+
+/-- `SUKFCorrection::getLikelihood()`: `(false, _)` while `innovations_` is empty -/
+def sukfObjLik (inv : InvFn α) (Rfn : NoiseFn α bs) (o : SukfObj α bs) : Option ((k : Nat) × Vec α k) :=
+  match o.stored with
+  | none => none
+  | some st => some ⟨st.k, sukfStoredLik inv st (Rfn st.msz)⟩
+
+/-- the object together with the one collaborator state that matters here: the noise covariance in force -/
+structure SukfSys (α : Type) (bs : Nat) where
+  obj : SukfObj α bs
+  Rfn : NoiseFn α bs
+
+inductive SukfOp (α : Type) (bs : Nat) where
+  /-- `correct(pred_state, corr_state)` -/
+  | correct (c : SukfCall α)
+  /-- `skip(status)` -/
+  | skip (status : Bool)
+  /-- the object is move-constructed into a new one, which is used from then on -/
+  | move
+  /-- `getLikelihood()` -/
+  | query
+  /-- the measurement model changes its noise covariance -/
+  | setNoise (Rfn : NoiseFn α bs)
+
+/-- what the caller sees -/
+inductive SukfObs (α : Type) where
+  | belief (n k : Nat) (g : GM α n k)
+  | lik (l : Option ((k : Nat) × Vec α k))
+
+/-- one operation on the serial correction object -/
+def sukfSysStep (inv : InvFn α) (σ : SukfSys α bs) : SukfOp α bs → SukfSys α bs × Option (SukfObs α)
+  | .correct c =>
+    -- GaussianCorrection::correct: `if (!skip_) correctStep(...) else corr_state = pred_state`
+    if σ.obj.skip then (σ, some (.belief c.n c.k c.b))
+    else ({ σ with obj := { skip := σ.obj.skip, stored := sukfStepStored bs c } },
+          some (.belief c.n c.k (sukfCorrect inv bs (σ.Rfn c.msz) c.inp c.b c.out)))
+  | .skip status => ({ σ with obj := { σ.obj with skip := status } }, none)
+  | .move => ({ σ with obj := sukfMoved σ.obj }, none)
+  | .query => (σ, some (.lik (sukfObjLik inv σ.Rfn σ.obj)))
+  | .setNoise f => ({ σ with Rfn := f }, none)
+
+/-- a history of operations: final state and the observations in order -/
+def sukfSysRun (inv : InvFn α) : SukfSys α bs → List (SukfOp α bs) → SukfSys α bs × List (SukfObs α)
+  | σ, [] => (σ, [])
+  | σ, op :: ops =>
+    let r := sukfSysStep inv σ op
+    let rest := sukfSysRun inv r.1 ops
+    (rest.1, r.2.toList ++ rest.2)
+
+/-! The standard additive correction as an object (`UKFCorrection`: same base class, same move constructor — the members
+`innovations_` / `predicted_meas_` are not moved —, `innovations_` emptied when a step starts, fix 5117f2c).  Its
+likelihood is a function of members written by the step, so the model keeps the values. -/
+
+structure UkfObj (α : Type) where
+  skip : Bool
+  stored : Option ((k : Nat) × Vec α k)
+
+/-- `UKFCorrection::correctStep` (additive) on a measurement whose size is a multiple of the block size, given the full
+    covariance the serial encoding stands for: output mixture and likelihoods (none after each early return) -/
+def ukfStep (inv : InvFn α) (bs : Nat) {n msz s k : Nat} (hdiv : msz % bs = 0) (R : SNoise α msz bs)
+    (inp : SukfIn α n msz s k) (b out : GM α n k) : GM α n k × Option ((k : Nat) × Vec α k) :=
+  have h : (msz / bs) * bs = msz := Nat.div_mul_cancel (Nat.dvd_of_mod_eq_zero hdiv)
+  if !inp.validMeas then (b, none)
+  else if !inp.validPred then (b, none)
+  else if !inp.validInnov then (b, none)
+  else
+    let us : Vec (UkfComp α n ((msz / bs) * bs)) k := Vec.of (fun i =>
+      ukfComp inv inp.nc (R.cast h).toFull (b.mean i) (b.cov i) (inp.X i) (castRows h (inp.Yp i)) inp.wm inp.wc (castVec h inp.y))
+    ({ mean := fun i => (us i).mean, cov := fun i => (us i).cov, weight := out.weight },
+     some ⟨k, Vec.of (fun i => (us i).lik)⟩)
+
+structure UkfSys (α : Type) (bs : Nat) where
+  obj : UkfObj α
+  Rfn : NoiseFn α bs
+
+/-- one operation on the standard correction object.  A measurement whose size is not a multiple of the block size has
+    no counterpart here (a shared block does not define a full covariance for it): such a call is left out of the
+    comparison (`b`, no likelihood) and excluded by hypothesis in the theorems. -/
+def ukfSysStep (inv : InvFn α) (σ : UkfSys α bs) : SukfOp α bs → UkfSys α bs × Option (SukfObs α)
+  | .correct c =>
+    if σ.obj.skip then (σ, some (.belief c.n c.k c.b))
+    else if hdiv : c.msz % bs = 0 then
+      let r := ukfStep inv bs hdiv (σ.Rfn c.msz) c.inp c.b c.out
+      ({ σ with obj := { skip := σ.obj.skip, stored := r.2 } }, some (.belief c.n c.k r.1))
+    else ({ σ with obj := { skip := σ.obj.skip, stored := none } }, some (.belief c.n c.k c.b))
+  | .skip status => ({ σ with obj := { σ.obj with skip := status } }, none)
+  | .move => ({ σ with obj := { skip := σ.obj.skip, stored := none } }, none)
+  | .query => (σ, some (.lik σ.obj.stored))
+  | .setNoise f => ({ σ with Rfn := f }, none)
+
+def ukfSysRun (inv : InvFn α) : UkfSys α bs → List (SukfOp α bs) → UkfSys α bs × List (SukfObs α)
+  | σ, [] => (σ, [])
+  | σ, op :: ops =>
+    let r := ukfSysStep inv σ op
+    let rest := ukfSysRun inv r.1 ops
+    (rest.1, r.2.toList ++ rest.2)
+
+/-- the last operation of a history that touched the members the likelihood is read from: a `correct()` that was not
+    skipped, or a move; `sk` is the skip flag at the start -/
+def sukfLastTouch : Bool → List (SukfOp α bs) → Option (SukfOp α bs)
+  | _, [] => none
+  | sk, op :: ops =>
+    let sk' := match op with | .skip status => status | _ => sk
+    match sukfLastTouch sk' ops with
+    | some t => some t
+    | none =>
+      match op with
+      | .correct c => if sk then none else some (.correct c)
+      | .move => some .move
+      | _ => none
+
+/-- the skip flag after a history: the status of the last `skip()` call, if any -/
+def sukfHistorySkip : Bool → List (SukfOp α bs) → Bool
+  | sk, [] => sk
+  | sk, op :: ops => sukfHistorySkip (match op with | .skip status => status | _ => sk) ops
+
+end object
+
 end BFL
